@@ -36,7 +36,6 @@ type ObResult struct {
 
 type Engine struct {
 	Prog    *ssa.Program
-	PF      *Portfolio
 	Cfg     Config
 	Harness string
 
@@ -57,7 +56,11 @@ type Engine struct {
 	nextGlobal  int
 	stateCtr    int
 	Bounds      map[string]int
-	mergeDepth  int
+	Workers     int
+	pfs         []*Portfolio
+	DumpTo      string
+	OnlySolver  string
+	PathFeasMs  int
 	Log         func(string)
 	Merged      map[string]int
 }
@@ -78,7 +81,7 @@ func NewEngine(prog *ssa.Program, cfg Config) *Engine {
 	if cfg.MaxPaths == 0 {
 		cfg.MaxPaths = 20000
 	}
-	return &Engine{Prog: prog, Cfg: cfg, PF: NewPortfolio(), Covers: map[string]int{}, CoverModels: map[string]*Scenario{},
+	return &Engine{Prog: prog, Cfg: cfg, Covers: map[string]int{}, CoverModels: map[string]*Scenario{},
 		Paths: map[string]int{}, FnsExecuted: map[string]int{}, IntrUsed: map[string]int{}, Unsupp: map[string]int{},
 		Overflow: map[string]int{}, PanicSites: map[string]int{}, fnInfos: map[*ssa.Function]*fnInfo{},
 		globals: map[*ssa.Global]int{}, Bounds: map[string]int{}, Merged: map[string]int{}}
@@ -120,33 +123,116 @@ func (e *Engine) NewState() *State {
 	return &State{own: map[int]Value{}, W: newWorld(), InitDone: map[*ssa.Package]bool{}}
 }
 
-// RunHarness explores all paths of fn (no params) from state st.
+// RunHarness explores all paths of fn (no params) from state st with a pool of workers.
 func (e *Engine) RunHarness(st *State, fn *ssa.Function) {
+	if e.Workers <= 0 {
+		e.Workers = 1
+	}
+	for len(e.pfs) < e.Workers {
+		pf := NewPortfolio()
+		pf.DumpTo, pf.Only = e.DumpTo, e.OnlySolver
+		e.pfs = append(e.pfs, pf)
+	}
+	st.pf = e.pfs[0]
 	e.pushFrame(st, fn, nil, nil, nil)
 	st.top().Barrier = "top"
+	var mu sync.Mutex
+	cond := sync.NewCond(&mu)
 	work := []*State{st}
+	active := 0
 	npaths := 0
-	for len(work) > 0 {
-		s := work[len(work)-1]
-		work = work[:len(work)-1]
-		succ := e.runState(s)
-		if succ != nil {
-			// push in reverse so that the first successor is explored first
-			for i := len(succ) - 1; i >= 0; i-- {
-				work = append(work, succ[i])
+	stop := false
+	var wg sync.WaitGroup
+	for wi := 0; wi < e.Workers; wi++ {
+		wg.Add(1)
+		go func(pf *Portfolio) {
+			defer wg.Done()
+			for {
+				mu.Lock()
+				for len(work) == 0 && active > 0 && !stop {
+					cond.Wait()
+				}
+				if stop || (len(work) == 0 && active == 0) {
+					mu.Unlock()
+					cond.Broadcast()
+					return
+				}
+				s := work[len(work)-1]
+				work = work[:len(work)-1]
+				active++
+				mu.Unlock()
+				s.pf = pf
+				for s != nil {
+					succ := e.runState(s)
+					if succ == nil {
+						e.finishPath(s)
+						mu.Lock()
+						npaths++
+						if npaths >= e.Cfg.MaxPaths && !stop {
+							stop = true
+							e.mu.Lock()
+							e.Unsupp[fmt.Sprintf("path cap %d reached with %d states pending", e.Cfg.MaxPaths, len(work))]++
+							e.Paths["unexplored"] += len(work)
+							e.mu.Unlock()
+						}
+						mu.Unlock()
+						s = nil
+						break
+					}
+					if len(succ) == 0 {
+						s = nil
+						break
+					}
+					// continue with the first successor, share the rest
+					mu.Lock()
+					for i := len(succ) - 1; i >= 1; i-- {
+						work = append(work, succ[i])
+					}
+					mu.Unlock()
+					cond.Broadcast()
+					s = succ[0]
+					s.pf = pf
+				}
+				mu.Lock()
+				active--
+				mu.Unlock()
+				cond.Broadcast()
 			}
-			continue
+		}(e.pfs[wi])
+	}
+	wg.Wait()
+}
+
+// Close stops the solver processes.
+func (e *Engine) Close() {
+	for _, pf := range e.pfs {
+		pf.Close()
+	}
+}
+
+// SolverStats aggregates over the worker portfolios.
+func (e *Engine) SolverStats() map[string]interface{} {
+	tm := map[string]float64{}
+	wins := map[string]int64{}
+	var q, ch, sat, unsat, unk, errs, dis int64
+	for _, pf := range e.pfs {
+		st := &pf.Stats
+		q += st.Queries
+		ch += st.CacheHits
+		sat += st.Sat
+		unsat += st.Unsat
+		unk += st.UnknownN
+		errs += st.Errors
+		dis += st.Disagree
+		for k, v := range st.TimeNs {
+			tm[k] += float64(*v) / 1e9
 		}
-		npaths++
-		e.finishPath(s)
-		if npaths >= e.Cfg.MaxPaths {
-			e.mu.Lock()
-			e.Unsupp[fmt.Sprintf("path cap %d reached with %d states pending", e.Cfg.MaxPaths, len(work))]++
-			e.Paths["unexplored"] += len(work)
-			e.mu.Unlock()
-			break
+		for k, v := range st.Wins {
+			wins[k] += *v
 		}
 	}
+	return map[string]interface{}{"queries": q, "cache_hits": ch, "sat": sat, "unsat": unsat, "unknown": unk, "errors": errs,
+		"disagreements": dis, "time_s": tm, "wins": wins}
 }
 
 func (e *Engine) finishPath(s *State) {
@@ -449,10 +535,10 @@ func (e *Engine) feasible(s *State, c *Term) Verdict {
 	}
 	asserts := append(s.pcTerms(), c)
 	ms := e.Cfg.FeasMs
-	if e.mergeDepth > 0 && ms > 400 {
+	if s.mergeDepth > 0 && ms > 400 {
 		ms = 400
 	}
-	v, _, _ := e.PF.Check(asserts, ms, false)
+	v, _, _ := s.pf.Check(asserts, ms, false)
 	if v == Unknown {
 		e.mu.Lock()
 		e.FeasUnknown++
